@@ -58,6 +58,14 @@ func installClientHook() {
 			if point != "client.monitor.reply" {
 				return
 			}
+			// C16: a callback that commits a transaction inside the window
+			c16WinMu.Lock()
+			win := c16Window
+			c16WinMu.Unlock()
+			if win != nil {
+				win()
+				return
+			}
 			c01HookMu.Lock()
 			armed := c01Armed
 			reached, release := c01Reached, c01Release
